@@ -1516,13 +1516,15 @@ def coq_stmt(s, ind=1):
     if t == "SReturn":
         return "(SReturn %s)" % coq_elem(s[1])
     if t == "SSeq":
-        # flatten right-nested sequences into a fold to keep the parser's recursion shallow
         items = []
         while s[0] == "SSeq":
             items.append(s[1])
             s = s[2]
         items.append(s)
-        return "(sseq " + coq_list([pad + coq_stmt(x, ind + 1) for x in items]) + ")"
+        out = ""
+        for x in items[:-1]:
+            out += "(SSeq " + coq_stmt(x, ind + 1) + pad
+        return out + coq_stmt(items[-1], ind + 1) + ")" * (len(items) - 1)
     if t in ("SIf", "STry"):
         return "(%s %s%s%s)" % (t, coq_stmt(s[1], ind + 1), pad, coq_stmt(s[2], ind + 1))
     if t == "SLoop":
@@ -1542,6 +1544,7 @@ def main():
     ap.add_argument("--files", nargs="*", default=None)
     ap.add_argument("--prefix", default="")
     ap.add_argument("--report", default=None)
+    ap.add_argument("--examples", default=None)
     a = ap.parse_args()
     files = a.files if a.files else DEFAULT_FILES
     tr = Translator(a.repo, files)
@@ -1554,7 +1557,7 @@ def main():
     P = a.prefix
     L = []
     L.append("(* GENERATED by translator/py2listprog.py from %s -- do not edit *)" % ", ".join(files))
-    L.append("From Coq Require Import List.\nImport ListNotations.\nFrom Purity Require Import Model.\n")
+    L.append("From Coq Require Import List NArith.\nImport ListNotations.\nFrom Purity Require Import Model.\nLocal Open Scope N_scope.\n")
     L.append("Definition %ssseq (l : list stmt) : stmt := fold_right (fun a b => match b with SSkip => a | _ => SSeq a b end) SSkip l.\n" % P
              if False else "")
     names = {}
@@ -1573,18 +1576,40 @@ def main():
         L.append("Definition %sd_%d : fdef := mkFdef %s\n  %s.\n" % (P, sc.id, coq_list([str(x) for x in tr.nparams[sc.id]]),
                                                                   coq_stmt(tr.bodies[sc.id])))
     L.append("Definition %sall_defs : list fdef :=\n  %s.\n" % (P, coq_list(["%sd_%d" % (P, sc.id) for sc in tr.scopes])))
-    L.append("Definition %sall_gsh : list nat := Eval vm_compute in infer_gsh 6 %sall_defs.\n" % (P, P))
+    L.append("(* globals that may hold a reference to a shared object (any value is sound: the check re-validates it) *)")
+    L.append("Definition %sall_gsh : list N := Eval vm_compute in infer_gsh 8%%nat %sall_defs.\n" % (P, P))
+    L.append("(* the violations found in each function, tabulated once *)")
+    L.append("Definition %sall_vl : list (list viol) := Eval vm_compute in viol_table %sall_defs %sall_gsh." % (P, P, P))
+    L.append("Lemma %sall_vl_eq : %sall_vl = viol_table %sall_defs %sall_gsh.\nProof. vm_compute. reflexivity. Qed.\n" % (P, P, P, P))
+    L.append("(* diagnostics: (function id, violations) of every flagged function *)")
+    L.append("Definition %sall_flagged : list (N * list viol) := Eval vm_compute in\n"
+             "  filter (fun p => negb (nullb (snd p))) (combine (map N.of_nat (seq 0 (length %sall_vl))) %sall_vl).\n" % (P, P, P))
+    specs = []
     for sc in tr.scopes:
-        L.append("Definition %sh_%s : prog := mkProg %sall_defs %sall_gsh %s %d." % (
-            P, sc.coq_name, P, P, coq_list([str(x) for x in tr.scope_of(sc.id)]), sc.id))
-        helpers.append("%sh_%s" % (P, sc.coq_name))
-    L.append("\nDefinition %sall_helpers : list prog :=\n  %s.\n" % (P, coq_list(helpers)))
+        spec = "(%s, %d)" % (coq_list([str(x) for x in tr.scope_of(sc.id)]), sc.id)
+        L.append("Definition %ss_%s : list N * N := %s." % (P, sc.coq_name, spec))
+        L.append("Definition %sh_%s : prog := helper %sall_defs %sall_gsh %ss_%s." % (P, sc.coq_name, P, P, P, sc.coq_name))
+        specs.append("%ss_%s" % (P, sc.coq_name))
+    L.append("\nDefinition %sall_specs : list (list N * N) :=\n  %s.\n" % (P, coq_list(specs)))
+    L.append("Definition %sall_helpers : list prog := map (helper %sall_defs %sall_gsh) %sall_specs.\n" % (P, P, P, P))
     text = "\n".join(L)
-    text = text.replace("From Purity Require Import Model.\n",
-                        "From Purity Require Import Model.\n\nLocal Definition sseq (l : list stmt) : stmt :=\n"
-                        "  fold_right (fun a b => match b with SSkip => a | _ => SSeq a b end) SSkip l.\n", 1)
     with open(a.out, "w") as f:
         f.write(text)
+    if a.examples:
+        modname = os.path.basename(a.out).split(".")[0]
+        E = ["(* GENERATED by translator/py2listprog.py -- one reflective purity proof per translated helper *)",
+             "From Coq Require Import List NArith.\nImport ListNotations.",
+             "From Purity Require Import Model Proofs_ListProg %s.\n" % modname]
+        for sc in tr.scopes:
+            E.append("(* %s:%d %s *)" % (sc.path, sc.lineno, sc.qual))
+            E.append("Example %sC07_%s : may_mutate_shared %sh_%s = false.\nProof. apply (cached_pure %sall_vl); "
+                     "[exact %sall_vl_eq | vm_compute; reflexivity]. Qed." % (P, sc.coq_name, P, sc.coq_name, P, P))
+        E.append("\nLemma %sall_helpers_pure : forallb (fun p => negb (may_mutate_shared p)) %sall_helpers = true.\n"
+                 "Proof. apply (cached_all_pure %sall_defs %sall_gsh %sall_vl); [exact %sall_vl_eq | vm_compute; reflexivity]. Qed."
+                 % (P, P, P, P, P, P))
+        E.append("\nDefinition %sn_helpers : nat := %d." % (P, len(tr.scopes)))
+        with open(a.examples, "w") as f:
+            f.write("\n".join(E) + "\n")
     if a.report:
         globs = {v: list(k) for k, v in tr.glob_ids.items()}
         rep = {
